@@ -43,7 +43,10 @@ _BOPS_1D = ['getitem', 'sum', 'mean', 'max', 'count', 'loc_min']  # reduce a mem
 
 
 def probes(ctx):
-    return []
+    m0 = {'rows': ['m0', 'm1'], 'cols': ['o0', 'o1'], 'dtypes': ['int64', 'int64'], 'cells': [[1, 2], [3, 4]], 'lay': 0}
+    m1 = {'rows': ['m2', 'm3'], 'cols': ['o0', 'o1'], 'dtypes': ['int64', 'int64'], 'cells': [[5, 6], [7, 8]], 'lay': 0}
+    base = {'members': [m0, m1], 'axis': 0, 'store': None, 'max_persist': None, 't': 'quilt', 'retain': False}
+    return [dict(base, seed=sd, obs=['iloc', 'iloc', 'iloc', 'iloc', 'iter_array', 'items']) for sd in range(12)]
 
 
 def _tame(v):
